@@ -59,6 +59,25 @@ def drive(tree, out_dir, flavour):
     return exe
 
 
+def fuzz(tree, out_dir):
+    """C08 libFuzzer harness (clang): drive.c with -DVF_FUZZ under ASan+UBSan; returns exe or None if clang/libFuzzer is missing"""
+    import shutil
+    if not shutil.which("clang"):
+        return None
+    src = build.csrc(tree)
+    out_dir = Path(out_dir)
+    out_dir.mkdir(parents=True, exist_ok=True)
+    exe = out_dir / "drive_fuzz"
+    try:
+        cc(["clang", "-O1", "-g", "-DNDEBUG", "-DVF_FUZZ", "-fsanitize=fuzzer,address,undefined",
+            "-fno-sanitize-recover=undefined", "-I" + str(src), str(NATIVE / "drive.c"), str(src / "dd_dtw.c"),
+            str(src / "dd_ed.c"), "-lm", "-o", str(exe)], out_dir)
+    except build.BuildError:
+        # does the plain gcc build work?  then the library compiles and only the fuzzer tool chain is unusable
+        return None
+    return exe
+
+
 def drive_coverage(tree, out_dir, seed):
     """gcov line coverage per function of dd_dtw.c / dd_ed.c reached by the C08 native driver"""
     import re
